@@ -240,6 +240,7 @@ func vfExec(ops []string, o *vu.Out, c13 bool) {
 		}
 		newOp, res := c.run(t, op, o)
 		o.Op(newOp, res)
+		c.postOp(o)
 	}
 }
 
@@ -425,6 +426,11 @@ func (c *vfCase) run(t []string, op string, o *vu.Out) (string, string) {
 		}
 		c.sc.maxFrameSize = int32(a[0])
 		return op, "ok"
+	case "dump":
+		if len(t) != 1 {
+			return op, "bad-op"
+		}
+		return op, vu.Catch(func() string { return "ok " + c.dump() })
 	case "pop":
 		if len(t) > 2 {
 			return op, "bad-op"
@@ -516,7 +522,7 @@ func (c *vfCase) pop(o *vu.Out) (string, string) {
 			c.fail(o, fmt.Sprintf("Pop reports nothing to write but control frame %v is queued", c.refCtl[0]))
 		}
 		for _, sid := range sendable {
-			c.failIdleAware(o, sid, fmt.Sprintf("Pop reports nothing to write but %v of open stream %d is sendable (window %d/%d, max frame %d)",
+			c.fail(o, fmt.Sprintf("Pop reports nothing to write but %v of open stream %d is sendable (window %d/%d, max frame %d)",
 				c.refQ[sid][0], sid, c.stream(sid).flow.n, c.sc.flow.n, c.sc.maxFrameSize))
 			break
 		}
@@ -590,16 +596,30 @@ func (c *vfCase) pop(o *vu.Out) (string, string) {
 	return opLine, line
 }
 
-// failIdleAware attributes a lost-frames failure to the second RFC 7540 defect when the
-// stream's node started as an idle node (created by AdjustStream before OpenStream).
-func (c *vfCase) failIdleAware(o *vu.Out, sid uint32, desc string) {
-	if ws, ok := c.ws.(*priorityWriteSchedulerRFC7540); ok && c.region == "" && !c.broken {
-		if ws.nodes[sid] == nil && c.refOpen[sid] {
-			o.Fail(vfSigIdleEvict, fmt.Sprintf("[%s] %s; the open stream's node has been removed from the tree", c.kind, desc))
+// postOp detects entry into the region of the second known RFC 7540 defect: a stream whose node was
+// created idle by AdjustStream and later opened is still on the idle list; when the list overflows the
+// node of the OPEN stream is removed from the tree (frames lost, later Push(DATA) panics).
+func (c *vfCase) postOp(o *vu.Out) {
+	ws, ok := c.ws.(*priorityWriteSchedulerRFC7540)
+	if !ok || c.broken {
+		return
+	}
+	for id, n := range ws.nodes {
+		if n.state == priorityNodeIdleRFC7540 {
+			c.idleMade[id] = true
+		}
+	}
+	if c.region != "" {
+		return
+	}
+	for id := range c.refOpen {
+		if c.idleMade[id] && ws.nodes[id] == nil {
+			c.region = vfSigIdleEvict
+			o.Stat("region:" + vfSigIdleEvict)
+			o.Fail(vfSigIdleEvict, fmt.Sprintf("[p7540] open stream %d (node created idle by AdjustStream, then opened) was evicted from the priority tree by the idle-list limit %d with %d frames queued", id, c.maxIdle, len(c.refQ[id])))
 			return
 		}
 	}
-	c.fail(o, desc)
 }
 
 // oracleC13 states C13 on the implementation after a Pop that served stream sid.
@@ -680,4 +700,110 @@ func (c *vfCase) oracleC13(o *vu.Out, sid uint32, sendable []uint32, toggleBefor
 			}
 		}
 	}
+}
+
+func vfIDs(ids []uint32) string {
+	if len(ids) == 0 {
+		return "-"
+	}
+	parts := make([]string, len(ids))
+	for i, id := range ids {
+		parts[i] = strconv.Itoa(int(id))
+	}
+	return strings.Join(parts, ",")
+}
+
+func vfQLen(q *writeQueue) int { return len(q.currQueue) - q.currPos + len(q.nextQueue) }
+
+// dump prints the scheduler's internal structure canonically (white-box part of the D-tie).
+func (c *vfCase) dump() string {
+	switch ws := c.ws.(type) {
+	case *roundRobinWriteScheduler:
+		var ring []uint32
+		rev := map[*writeQueue]uint32{}
+		for id, q := range ws.streams {
+			rev[q] = id
+		}
+		if ws.head != nil {
+			for q := ws.head; ; {
+				ring = append(ring, rev[q])
+				q = q.next
+				if q == ws.head || len(ring) > 1000 {
+					break
+				}
+			}
+		}
+		var sb strings.Builder
+		fmt.Fprintf(&sb, "rr ctl=%d ring=%s q=", vfQLen(&ws.control), vfIDs(ring))
+		for _, id := range ring {
+			fmt.Fprintf(&sb, "%d,", vfQLen(ws.streams[id]))
+		}
+		return sb.String()
+	case *priorityWriteSchedulerRFC9218:
+		rev := map[*writeQueue]uint32{}
+		for id, m := range ws.streams {
+			rev[m.location] = id
+		}
+		var sb strings.Builder
+		t := 0
+		if ws.prioritizeIncremental {
+			t = 1
+		}
+		fmt.Fprintf(&sb, "p9 ctl=%d t=%d buf=%d:%d", vfQLen(&ws.control), t, ws.priorityUpdateBuf.streamID,
+			2*int(ws.priorityUpdateBuf.priority.urgency)+int(ws.priorityUpdateBuf.priority.incremental))
+		for u := 0; u < 8; u++ {
+			for i := 0; i < 2; i++ {
+				h := ws.heads[u][i]
+				if h == nil {
+					continue
+				}
+				var ring []uint32
+				for q := h; ; {
+					ring = append(ring, rev[q])
+					q = q.next
+					if q == h || len(ring) > 1000 {
+						break
+					}
+				}
+				fmt.Fprintf(&sb, " r%d=%s", 2*u+i, vfIDs(ring))
+			}
+		}
+		return sb.String()
+	case *randomWriteScheduler:
+		var ids []uint32
+		for id := range ws.sq {
+			ids = append(ids, id)
+		}
+		sort.Slice(ids, func(i, j int) bool { return ids[i] < ids[j] })
+		return fmt.Sprintf("rand ctl=%d sq=%s", vfQLen(&ws.zero), vfIDs(ids))
+	case *priorityWriteSchedulerRFC7540:
+		var sb strings.Builder
+		fmt.Fprintf(&sb, "p7 max=%d lim=%d pool=%d closed=", ws.maxID, ws.writeThrottleLimit, len(ws.queuePool))
+		var cl, il []uint32
+		for _, n := range ws.closedNodes {
+			cl = append(cl, n.id)
+		}
+		for _, n := range ws.idleNodes {
+			il = append(il, n.id)
+		}
+		var ids []uint32
+		for id := range ws.nodes {
+			ids = append(ids, id)
+		}
+		sort.Slice(ids, func(i, j int) bool { return ids[i] < ids[j] })
+		fmt.Fprintf(&sb, "%s idle=%s nodes=%s tree=", vfIDs(cl), vfIDs(il), vfIDs(ids))
+		var walk func(n *priorityNodeRFC7540, depth int)
+		walk = func(n *priorityNodeRFC7540, depth int) {
+			fmt.Fprintf(&sb, "(%d w%d s%d b%d t%d q%d", n.id, n.weight, int(n.state), n.bytes, n.subtreeBytes, vfQLen(&n.q))
+			if depth < 100 {
+				for k := n.kids; k != nil; k = k.next {
+					walk(k, depth+1)
+				}
+			}
+			sb.WriteString(")")
+		}
+		walk(&ws.root, 0)
+		return sb.String()
+	}
+	return "unknown"
 }
